@@ -135,13 +135,14 @@ Need separate gsm_data structs for encode and decode.
 	if (psf->file.mode == SFM_READ)
 	{	if (psf->datalength % pgsm610->blocksize == 0)
 			pgsm610->blocks = psf->datalength / pgsm610->blocksize ;
-		else if (psf->datalength % pgsm610->blocksize == 1 && pgsm610->blocksize == GSM610_BLOCKSIZE)
+		else if (psf->datalength % pgsm610->blocksize == 1)
 		{	/*
-			**	Weird AIFF specific case.
-			**	AIFF chunks must be at an even offset from the start of file and
-			**	GSM610_BLOCKSIZE is odd which can result in an odd length SSND
-			**	chunk. The SSND chunk then gets padded on write which means that
-			**	when it is read the datalength is too big by 1.
+			**	Weird AIFF and WAV specific case.
+			**	AIFF and RIFF chunks must be at an even offset from the start of
+			**	file and both GSM610_BLOCKSIZE and WAVLIKE_GSM610_BLOCKSIZE are
+			**	odd which can result in an odd length SSND or data chunk. The chunk
+			**	then gets padded on write which means that when it is read the
+			**	datalength is too big by 1.
 			*/
 			pgsm610->blocks = psf->datalength / pgsm610->blocksize ;
 			}
